@@ -1,8 +1,7 @@
 SPECIFICATION Spec
 CONSTANTS
   StdMsg <- MCStdMsg
-  Impl416 = TRUE
-  TrimExact = FALSE
+  Modes = {"impl"}
   MaxHops = 0
   Statuses = {400, 404, 416, 429, 500}
   Kinds = {"BODY", "HEAD"}
